@@ -18,6 +18,7 @@ from pathlib import Path
 from check import Result
 from props import c04
 from props.c04 import canonj, canon
+from vlib import dtcodec, gen as vgen
 
 META = {
     'level_text': 'Theorems for all well-formed nodes and all oracles: describe_lists_exported (the report lists exactly the '
@@ -102,6 +103,126 @@ def subs_state(node):
 FALSY = [0, 0.0, False, '', [], {}]      # JSON values that are not null but false in Python
 
 
+# ----------------------------------------------------------------------------------------
+# boundary catalogue of a described datainfo ("payloads from the datatype boundary catalogues")
+# ----------------------------------------------------------------------------------------
+def quotient_class(k, scale):
+    """how the float quotient (k*scale)/scale relates to the grid index k: exact / below / above (the same classes as
+    harness/props/c03.py uses for its scaled leaves); None when k*scale is not a grid point in the strict sense"""
+    try:
+        x = k * scale
+        q = x / scale
+        if x in (float('inf'), float('-inf')) or int(round(q)) != k or float(int(round(q)) * scale) != x:
+            return None
+    except (OverflowError, ValueError):
+        return None
+    return 'exact' if q == k else 'below' if q < k else 'above'
+
+
+def strict_json(v):
+    """can a client put this value on the wire at all (JSON without NaN / Infinity)"""
+    try:
+        json.dumps(v, allow_nan=False)
+        return True
+    except (ValueError, TypeError):
+        return False
+
+
+def _tree(dt):
+    """datatype -> tree of vlib.dtcodec (LimitsType / StatusType as the tuples they are described as)"""
+    from frappy.datatypes import TupleOf
+    try:
+        return dtcodec.dt_to_tree(dt)
+    except ValueError:
+        if isinstance(dt, TupleOf):
+            try:
+                return {'t': 'tuple', 'elems': [_tree(m) for m in dt.members]}
+            except Exception:
+                return None
+        return None
+    except Exception:
+        return None
+
+
+def _leaf_boundaries(rng, lt):
+    """wire values at and around every limit a leaf states; the ones nearest to the limits first"""
+    t = lt['t']
+    if t == 'scaled':
+        kb = vgen.grid_bounds(lt)
+        near = [] if kb is None else [kb[0] - 1, kb[1] + 1, kb[0], kb[1], kb[0] + 1, kb[1] - 1]
+        return near, [x for x in vgen.boundary_wire_ints(lt) if x not in near]
+    if t == 'int':
+        lo, hi = lt['min'], lt['max']
+        near = [lo - 1, hi + 1, lo, hi, lo + 1, hi - 1]
+        return near, [float(lo), float(hi), lo - 0.5, hi + 0.5, float(hi) + 1.0, float(lo) - 1.0, lo - 2, hi + 2]
+    if t == 'double':
+        near = []
+        for lim, sign in ((vgen._f(lt['min']), -1), (vgen._f(lt['max']), 1)):
+            prec = max(abs(lim * vgen._f(lt['rr'])), vgen._f(lt['ar']))       # the tolerance band of FloatRange.validate
+            near += [lim, lim + sign * prec * 0.5, lim + sign * prec * 2, lim + sign * 1.0]
+        nums = [x for x in vgen.boundary_numbers(rng, lt) if isinstance(x, (int, float)) and not isinstance(x, bool)]
+        return near, [x for x in nums if abs(x) < 1e300]
+    if t in ('string', 'blob'):
+        groups = vgen.length_variants(rng, lt, True, grouped=True)
+        return groups[0], [x for g in groups[1:] for x in g]
+    if t == 'enum':
+        vals = [v for _, v in lt['members']]
+        return [min(vals) - 1, max(vals) + 1], vals + [n for n, _ in lt['members']] + ['nope', 1.0, 0.5]
+    if t == 'bool':
+        return [2, -1], [True, False, 0, 1, 1.0, 'true']
+    return [], []
+
+
+def boundary_catalogue(rng, trees, near_cap, far_cap):
+    """wire payloads around the limits of the given datatype trees (the CLIENT datatype rebuilt from the described
+    datainfo and the node's own datatype): for every leaf of a valid value the values at / next to each of its limits,
+    wrong lengths and arities of every container.  -> list of payloads (JSON values), the `near` ones (limit, limit +- 1
+    step) sampled to near_cap, the others to far_cap"""
+    near, far = [], []
+    for tree in trees:
+        if tree is None:
+            continue
+        try:
+            v = vgen.gen_valid(rng, tree)
+            if v is None:
+                continue
+            wire = json.loads(json.dumps(vgen.to_wire(rng, tree, v)))
+        except Exception:
+            continue
+        kinds = ('double', 'int', 'scaled', 'string', 'blob', 'enum', 'bool')
+        for path, lt in vgen.leaf_paths(tree, wire, kinds):
+            a, b = _leaf_boundaries(rng, lt)
+            near += [vgen.subst(wire, path, x) for x in a]
+            far += [vgen.subst(wire, path, x) for x in b]
+        try:
+            far += vgen.shape_variants(rng, tree, wire)
+        except Exception:
+            pass
+        far.append(wire)
+    near = [x for x in near if strict_json(x)]
+    far = [x for x in far if strict_json(x)]
+    if len(near) > near_cap:
+        near = rng.sample(near, near_cap)
+    if len(far) > far_cap:
+        far = rng.sample(far, far_cap)
+    return near + far
+
+
+def client_datatype(di, name):
+    """the datatype a client builds from a described datainfo (None when get_datatype refuses it)"""
+    from frappy.datatypes import get_datatype
+    try:
+        return get_datatype(json.loads(json.dumps(di)), name)
+    except Exception:
+        return None
+
+
+def client_accepts(cdt, payload):
+    """does the client datatype import and validate the payload (JSON round trip first: what arrives is JSON)"""
+    value = json.loads(json.dumps(payload))
+    return c04.oracle_call(lambda: cdt.validate(cdt.import_value(value)))[0] == 'ok'
+
+
 def do_payloads(rng, kind, argspec):
     """payloads of the `do` requests aimed at one name: for a command no payload, an 'empty' JSON value, a junk value and
     (where the generator knows the argument datatype) a valid one and one from the boundary catalogue"""
@@ -113,7 +234,7 @@ def do_payloads(rng, kind, argspec):
     return out
 
 
-def sweep_steps(rng, node, nodespec):
+def sweep_steps(rng, node, nodespec, cats=None, nchange=0):
     """requests at every described and undescribed name of the node"""
     from frappy.params import Parameter
     idx = {(m, a): (kind, spec) for m, a, kind, spec, _ in (c04.spec_index(nodespec) if nodespec else [])}
@@ -144,6 +265,12 @@ def sweep_steps(rng, node, nodespec):
                                       'seed': rng.randrange(1 << 30)})
                 acts.append((mname, name))
         acts.append((mname, None))
+    # the boundary catalogue of every described datainfo, sent as `change` requests (a parameter described read-only must
+    # refuse them all; for a writable one the described datainfo predicts which are refused)
+    for (mname, aname), (cdt, payloads) in (cats or {}).items():
+        for data in payloads[:nchange]:
+            steps.append({'kind': 'change', 'spec': '%s:%s' % (mname, aname), 'data': data,
+                          'script': rng.choice(['none', 'none', 'value_valid']), 'seed': rng.randrange(1 << 30)})
     # faults inside the module: it assigns values its own datatype refuses (wrong kind, out of range, too long, NaN),
     # then a client reads the parameter (and the snapshot of a later `activate` is judged as well)
     if nodespec is not None:
@@ -235,6 +362,40 @@ def generated_cfgs(nodespec):
     return cfgs
 
 
+def param_catalogues(rng, node, desc, near_cap, far_cap):
+    """(module, wire name) -> (client datatype, boundary payloads) for every described parameter: the catalogue is drawn
+    from the limits the DESCRIBED datainfo states and from those of the node's own datatype (they should be the same)"""
+    out = {}
+    for mname, md in desc['modules'].items():
+        modobj = node.secnode.modules[mname]
+        for aname, ad in md['accessibles'].items():
+            di = ad.get('datainfo')
+            if isinstance(di, dict) and di.get('type') == 'command':
+                continue
+            pobj = modobj.parameters.get(modobj.accessiblename2attr.get(aname))
+            if pobj is None:
+                continue
+            cdt = client_datatype(di, aname)
+            trees = [_tree(cdt) if cdt is not None else None, _tree(pobj.datatype)]
+            if trees[0] == trees[1]:
+                trees = trees[:1]
+            out[(mname, aname)] = (cdt, boundary_catalogue(rng, trees, near_cap, far_cap))
+    return out
+
+
+def change_client_verdicts(cats, steps, rec):
+    """for every `change` aimed at a described parameter: does the datatype a client rebuilds from the described datainfo
+    import + validate the payload?  (computed by the real datatype code; judged in Lean against what the node did)"""
+    for st, out in zip(steps, rec['steps']):
+        if st['kind'] != 'change' or not st['spec']:
+            continue
+        m, _, a = st['spec'].partition(':')
+        cat = cats.get((m, a or 'target'))
+        if cat is None:
+            continue
+        out['client'] = cat[0] is not None and client_accepts(cat[0], st['data'])
+
+
 def do_client_verdicts(desc, steps, rec):
     """for every `do` with a payload aimed at a command described WITH an argument: does the argument datatype a client
     rebuilds from the described datainfo import + validate the payload?  (computed by the real datatype code; judged in Lean)"""
@@ -256,7 +417,7 @@ def do_client_verdicts(desc, steps, rec):
         out['client'] = c04.oracle_call(lambda: arg.validate(arg.import_value(payload)))[0] == 'ok'
 
 
-def client_verdicts(rng, node, desc, nodespec, rec):
+def client_verdicts(rng, node, desc, nodespec, rec, cats=None):
     """datainfo checks and import checks, computed with the real datatype code on both sides"""
     from frappy.datatypes import get_datatype
     dichecks, imports = [], []
@@ -279,8 +440,10 @@ def client_verdicts(rng, node, desc, nodespec, rec):
                 continue
             clients[(mname, aname)] = cdt
             dtspec = idx.get((mname, attr))
-            for _ in range(4 if dtspec else 1):
-                payload = c04.gen_payload(rng, dtspec)[0]
+            # payloads: generated ones (mostly valid) + the boundary catalogue of the described datainfo
+            payloads = [c04.gen_payload(rng, dtspec)[0] for _ in range(4 if dtspec else 1)]
+            payloads += (cats or {}).get((mname, aname), (None, []))[1]
+            for payload in payloads:
                 cl = c04.oracle_call(lambda: cdt.validate(cdt.import_value(payload)))[0] == 'ok'
                 # the node's verdict as far as the described datainfo can express it (LimitsType: the tuple part;
                 # the order test of the pair belongs to the limit checks, see design_notes/C06.md)
@@ -334,12 +497,16 @@ def report_text(desc):
         return None
 
 
-def run_node(rng, node, box, nodespec, classes, cfgs=None):
+def run_node(rng, node, box, nodespec, classes, cfgs=None, big=False):
     """-> dict for the driver, or {'errors': ...}"""
     desc1 = node.describe()
     strict = report_text(desc1)
     rep1 = report_json(desc1)
-    steps, acts = sweep_steps(rng, node, nodespec)
+    # boundary catalogues of the described datainfos: all of them for the datainfo checks (datatype against datatype),
+    # the first ones of each also as change requests (described datainfo against what the node does)
+    quick = not big
+    cats = param_catalogues(random.Random(rng.randrange(1 << 30)), node, desc1, 6 if quick else 10, 4 if quick else 12)
+    steps, acts = sweep_steps(rng, node, nodespec, cats, 5 if quick else 8)
     rec = None
     if nodespec is not None:
         rec = run_steps_on(node, box, nodespec, classes, steps)
@@ -347,6 +514,7 @@ def run_node(rng, node, box, nodespec, classes, cfgs=None):
         rec, steps = run_steps_plain(node, steps)
     add_inits(node, rec, generated_cfgs(nodespec) if nodespec is not None else (cfgs or {}))
     do_client_verdicts(desc1, steps, rec)
+    change_client_verdicts(cats, steps, rec)
     activates = []
     for m, a in acts:
         conn = node.connect()
@@ -358,7 +526,7 @@ def run_node(rng, node, box, nodespec, classes, cfgs=None):
                           if reply[0].startswith('error_') else ['done', None], 'subsChanged': before != after,
                           'pyclass': reply[2][1] if reply[0].startswith('error_') else None})
         node.disconnect(conn)
-    dichecks, imports = client_verdicts(rng, node, desc1, nodespec, rec)
+    dichecks, imports = client_verdicts(rng, node, desc1, nodespec, rec, cats)
     desc2 = node.describe()
     classes = [{'m': mname, 'ic': list(md.get('interface_classes', [])), 'features': list(md.get('features', [])),
                 'impl': md.get('implementation')}
@@ -529,7 +697,7 @@ def run_generated(case):
     node, box, classes = c04.build_node(case['nodespec'])
     if node.errors or set(node.secnode.modules) != {ms['name'] for ms in case['nodespec']['modules']}:
         return None
-    return run_node(random.Random(case['seed'] + 1), node, box, case['nodespec'], classes)
+    return run_node(random.Random(case['seed'] + 1), node, box, case['nodespec'], classes, big=bool(case.get('big')))
 
 
 def evaluate(ctx, res, label, case, data, model, judge):
